@@ -259,13 +259,7 @@ def _freeze(o: t.Any, skip: t.FrozenSet[Path], path: Path) -> t.Any:
         return o.__qualname__
     if isinstance(o, sansldap.LDAPSession) and not path:
         skip = session_noise(type(o))
-    d = getattr(o, "__dict__", None)
-    if d is None and hasattr(type(o), "__slots__"):
-        d = {}
-        for klass in type(o).__mro__:
-            for name in getattr(klass, "__slots__", ()):
-                if name not in ("__dict__", "__weakref__") and hasattr(o, name):
-                    d[name] = getattr(o, name)
+    d = attrs(o) if (hasattr(o, "__dict__") or hasattr(type(o), "__slots__")) else None
     if d is not None:
         return (type(o).__qualname__,) + _freeze(d, skip, path)
     return repr(o)
@@ -360,18 +354,28 @@ def session_noise(cls: type) -> t.FrozenSet[Path]:
         try:
             for run in _calibration_runs(cls):
                 a, b = run(), run()
-                _diff_paths(_freeze(vars(a), frozenset(), ()), _freeze(vars(b), frozenset(), ()), (), out)
+                _diff_paths(_freeze(attrs(a), frozenset(), ()), _freeze(attrs(b), frozenset(), ()), (), out)
         except Exception:  # noqa: BLE001 - a class that cannot be built without arguments has no calibration
             out = set()
         got = _NOISE[cls] = frozenset(out)
     return got
 
 
+def attrs(o: t.Any) -> t.Dict[str, t.Any]:
+    """Instance attributes, whether the class keeps them in __dict__ or in __slots__."""
+    d = dict(getattr(o, "__dict__", {}))
+    for klass in type(o).__mro__:
+        for name in getattr(klass, "__slots__", ()):
+            if name not in ("__dict__", "__weakref__") and hasattr(o, name):
+                d.setdefault(name, getattr(o, name))
+    return d
+
+
 def public_view(session: t.Any) -> t.Any:
     """What a caller can see of a session without calling anything: its public instance attributes."""
-    return tuple(sorted(((k, freeze(v)) for k, v in vars(session).items() if not k.startswith("_")), key=repr))
+    return tuple(sorted(((k, freeze(v)) for k, v in attrs(session).items() if not k.startswith("_")), key=repr))
 
 
 def protocol_view(session: t.Any) -> t.Any:
     """Canonical form of everything except raw byte buffers (what draining may legitimately change)."""
-    return tuple(sorted(((k, freeze(v)) for k, v in vars(session).items() if not isinstance(v, (bytes, bytearray, memoryview))), key=repr))
+    return tuple(sorted(((k, freeze(v)) for k, v in attrs(session).items() if not isinstance(v, (bytes, bytearray, memoryview))), key=repr))
